@@ -416,6 +416,15 @@ func c03cases(run *vlab.Run) []*c03spec {
 				run.Count("c03_nested_range_cases", 1)
 			}
 		}
+		if c.kind == "tcp" && i%40 == 17 {
+			// every port but 0 is scanned: a reply from source port 0 is still from an unscanned port
+			s.Ports = []string{"1-65535", "22,1-65535", "1-65535,65535"}[i/40%3]
+			s.NRanges = strings.Count(s.Ports, ",") + 1
+			bits = 32
+			s.Subnet = fmt.Sprintf("%s/32", ipS(base))
+			s.AnswerPM = 4
+			run.Count("c03_whole_port_space_cases", 1)
+		}
 		if c.kind != "arp" && rng.Intn(3) == 0 {
 			// file modes: no subnet given => any source address is acceptable
 			s.Mode = "addrfile"
